@@ -610,7 +610,7 @@ func main() {
 	e.suiteD0()
 	timed("D1", func() { e.suiteD1(c.Pick(40000, 400000)) })
 	timed("D2", func() { e.suiteD2(32768) })
-	timed("D3", func() { e.suiteD3(c.Pick(5000, 150000)) })
+	timed("D3", func() { e.suiteD3(c.Pick(5000, 100000)) })
 	e.r.Notes = append(e.r.Notes,
 		"suite B discharges the hypothesis TableNear of int_vs_exact numerically (outside Lean), through the real sigmoidal[float64] and sigm table",
 		"IEEE-754 rounding and math.Exp are measured here, not proved: see the max|float-exactQ| no-sigmoid histogram entry (pico-centipawns)",
